@@ -41,6 +41,8 @@ package atree
 //@   modifies basicDigester.scratch, alloc
 
 //@ iface Digester.Reset()
+//@   conform all
+//@   serves C04
 //@   ensures is(recv, *basicDigester) ==> cleanDigester(as(recv, *basicDigester))
 //@   modifies basicDigester.circleHash64, basicDigester.blake3Hash, basicDigester.msg
 
